@@ -129,6 +129,19 @@ def run_job(job):
                 if not ev["recvok"]:
                     ev["detail"] = ("got %r expected %r" % (got, expected))[:300]
             out["ev"].append(ev)
+    for step in job.get("chain", []):
+        # nested calls: a call of top / mid / leaf under one of two context dictionaries (or none); how often the body of leaf ran
+        verif_side.log.reset()
+        ev = {"op": "Nested", "ctx": step["ctx"], "at": step["at"], "n": 0, "exc": "", "pres": 0, "what": "", "recvok": True}
+        try:
+            fn = {"top": verif_args.top, "mid": verif_args.mid, "leaf": verif_args.leaf}[step["at"]]
+            if step["ctx"] != "none":
+                fn = fn.with_context_args({"k": build(job["chain_ctx"][step["ctx"]])})
+            fn(build(job["chain_arg"]))
+        except Exception as e:
+            ev["exc"] = "%s: %s" % (type(e).__name__, str(e)[:150])
+        ev["n"] = len([it for it in verif_side.log.take() if it[0] == "Body" and it[1] == "leaf"])
+        out["ev"].append(ev)
     return out
 
 
